@@ -751,3 +751,63 @@ def hook(name, *a):
         if r is not None:
             return r
     return None
+
+
+@model('builtins.object.__setattr__')
+def _obj_setattr_raw(I, args, kw):
+    o, k, v = args
+    E = _E()
+    if not isinstance(o, E.Obj) or not isinstance(k, str):
+        raise Unsupported('object.__setattr__ on %r' % (o,))
+    o.attrs[k] = v
+    I.ctx.events.append(('setattr', o.id, k))
+
+
+@model('builtins.object.__delattr__')
+def _obj_delattr_raw(I, args, kw):
+    o, k = args
+    E = _E()
+    if not isinstance(o, E.Obj) or not isinstance(k, str):
+        raise Unsupported('object.__delattr__ on %r' % (o,))
+    if k not in o.attrs:
+        raise PyExc('AttributeError', k)
+    del o.attrs[k]
+    I.ctx.events.append(('delattr', o.id, k))
+
+
+# ---- netCDF4.Dataset handle type-state (trusted) -------------------------------------------
+# close() REQUIRES the handle to be open: the C library recycles ids, so closing a stale id
+# may close another dataset.  isopen() is a pure query.
+
+T_NC = 'netCDF4.Dataset: close() requires an open handle (ids are recycled by libnetcdf); isopen() is a pure query'
+
+
+@model('netCDF4.Dataset.close', trusted=T_NC)
+def _nc_close(I, args, kw):
+    o = args[0]
+    st = o.ghost.get('isopen', True)
+    I.ctx.prove('call:netCDF4.Dataset.close/pre:handle-is-open', st, 'typestate', {'callee': 'netCDF4.Dataset.close'})
+    if not I.ctx.branch(st):
+        raise PyExc('RuntimeError')      # "NetCDF: Not a valid ID" -- when the id has not been recycled
+    o.ghost['isopen'] = False
+    I.ctx.events.append(('nc_close', o.id))
+
+
+@model('netCDF4.Dataset.isopen', trusted=T_NC)
+def _nc_isopen(I, args, kw):
+    return args[0].ghost.get('isopen', True)
+
+
+@model('netCDF4.Dataset')
+def _nc_dataset(I, args, kw):
+    raise Unsupported('opening a netCDF4.Dataset')
+
+
+def _nc_obj_getattr(I, obj, name):
+    E = _E()
+    if 'isopen' in obj.ghost and name in ('isopen',):
+        return E.BoundModel(lambda I2, r, a, k: r.ghost['isopen'], obj, trusted=T_NC)
+    return None
+
+
+register_hook('obj_getattr', _nc_obj_getattr)
